@@ -95,3 +95,12 @@ func limitsOf(api API, root []byte) (Limits, error) {
 	}
 	return Limits{NameMax: int(pc.NameMax), WtMax: uint64(fi.Wtmax), RtMax: uint64(fi.Rtmax), MaxFileSize: fi.Maxfilesize}, nil
 }
+
+// ClientAPI returns an API for one concurrent client (own connection when the
+// rpc adapter is in use).
+func (s *Srv) ClientAPI() API {
+	if s.stub != nil {
+		return s.stub.NewConn()
+	}
+	return s.API
+}
